@@ -26,6 +26,7 @@ RULE = (
     ' Round 5: templates whose charts spell their notes NOTES2; a negative row followed by a row for the same beat text.'
     ' Round 6: sources of an SMSimfile subclass; the same source made negative after a successful conversion.'
     ' Round 7: attribute-level identity (extradata lists), negatives that are -0.0 as floats.'
+    ' Round 8: negative DELAYS (must convert).'
 )
 ASSUMPTIONS = ["C01's generator and the gap guard", "TimingData / NoteData as readers (C07, C14)"]
 MONITORS = ["result_content", "timing_equal", "notes_equal", "unmodified", "no_sharing", "second_call_same", "reload", "reload_autodetect", "negative_refused", "negative_refused_after_an_earlier_conversion"]
